@@ -467,7 +467,8 @@ def chain_graph_MEC(p):
     separate function because enumerating all graphs from the CPDAG is
     extremely costly for chain graphs."""
     MEC = []
-    for i in range(p):
+    # (the graph without nodes is the only member of its class)
+    for i in range(max(p, 1)):
         A = np.zeros((p, p))
         # Add "backward pointing" edges
         for j in range(i, 0, -1):
